@@ -36,18 +36,22 @@ def loops_after_first_assignment(qualname, var, inv, role_extra=None):
     out = {}
     k = [0]
 
-    def walk(node, inside):
+    def walk(node, inside, in_handler=False):
         for ch in ast.iter_child_nodes(node):
+            if isinstance(ch, ast.ExceptHandler):
+                # clean-up loops of an exception handler run on a pool the failed call left behind
+                walk(ch, inside, True)
+                continue
             if isinstance(ch, (ast.For, ast.While)):
                 kk = k[0]
                 k[0] += 1
-                if first is not None and ch.lineno > first:
+                if first is not None and ch.lineno > first and not in_handler:
                     out[kk] = list(inv) + (role_extra(ch, inside) if role_extra else [])
                 is_dispatch = isinstance(ch, ast.For) and isinstance(ch.target, ast.Name) \
                     and ch.target.id == 'col0'
-                walk(ch, inside or is_dispatch)
+                walk(ch, inside or is_dispatch, in_handler)
             else:
-                walk(ch, inside)
+                walk(ch, inside, in_handler)
     walk(fn, False)
     return out
 
